@@ -30,7 +30,7 @@ impl Writer {
 
 //@extract src/writer.rs | impl<D: Distance> Writer<D> | make_tree_in_file
 //@attr #[verifier::exec_allows_no_decreases_clause]
-//@hint after#1 <<<opt.cancelled()?;>>>
+//@hint start <<<>>>
         let ghost m = reader.trees.snap();
         let ghost u0 = (tmp_nodes.taken())(self.index);
         let ghost t0 = tmp_nodes.tv();
